@@ -124,9 +124,16 @@ type Stream struct {
 	WaitMs   int // how long (simulated) to wait for the node to close
 }
 
-// Run performs the stream against addr as a task and steps the simulation
-// until the task is done. label must be a deterministic function of the scenario.
-func (d *Driver) Run(label, addr string, st Stream) *Rec {
+// Conn is a hostile connection in progress.
+type Conn struct {
+	Rec   *Rec
+	task  *sim.Task
+	total time.Duration
+}
+
+// Start launches the stream against addr as a task and returns at once. label
+// must be a deterministic function of the scenario.
+func (d *Driver) Start(label, addr string, st Stream) *Conn {
 	rec := &Rec{}
 	wait := time.Duration(st.WaitMs) * time.Millisecond
 	if wait <= 0 {
@@ -187,10 +194,20 @@ func (d *Driver) Run(label, addr string, st Stream) *Rec {
 			return
 		}
 	})
-	if !d.Await(t, total) {
-		rec.ReadErr = "task-stuck"
+	return &Conn{Rec: rec, task: t, total: total}
+}
+
+// Finish steps the simulation until the connection's task is done.
+func (d *Driver) Finish(c *Conn) *Rec {
+	if !d.Await(c.task, c.total) {
+		c.Rec.ReadErr = "task-stuck"
 	}
-	return rec
+	return c.Rec
+}
+
+// Run = Start + Finish.
+func (d *Driver) Run(label, addr string, st Stream) *Rec {
+	return d.Finish(d.Start(label, addr, st))
 }
 
 // MemBudget is the heap a connection may cost the node: a small multiple of
